@@ -1,7 +1,7 @@
 import struct
 from sshuttle.firewall import subnet_weight
 from sshuttle.helpers import family_to_string
-from sshuttle.linux import ipt, ipt_chain_exists
+from sshuttle.linux import ipt, ipt_chain_exists, nonfatal
 from sshuttle.methods import BaseMethod
 from sshuttle.helpers import debug1, debug2, debug3, Fatal, which
 
@@ -245,18 +245,18 @@ class Method(BaseMethod):
 
         # basic cleanup/setup of chains
         if ipt_chain_exists(family, table, mark_chain):
-            _ipt('-D', 'OUTPUT', '-j', mark_chain)
-            _ipt('-F', mark_chain)
-            _ipt('-X', mark_chain)
+            nonfatal(_ipt, '-D', 'OUTPUT', '-j', mark_chain)
+            nonfatal(_ipt, '-F', mark_chain)
+            nonfatal(_ipt, '-X', mark_chain)
 
         if ipt_chain_exists(family, table, tproxy_chain):
-            _ipt('-D', 'PREROUTING', '-j', tproxy_chain)
-            _ipt('-F', tproxy_chain)
-            _ipt('-X', tproxy_chain)
+            nonfatal(_ipt, '-D', 'PREROUTING', '-j', tproxy_chain)
+            nonfatal(_ipt, '-F', tproxy_chain)
+            nonfatal(_ipt, '-X', tproxy_chain)
 
         if ipt_chain_exists(family, table, divert_chain):
-            _ipt('-F', divert_chain)
-            _ipt('-X', divert_chain)
+            nonfatal(_ipt, '-F', divert_chain)
+            nonfatal(_ipt, '-X', divert_chain)
 
     def is_supported(self):
         if which("iptables") and which("ip6tables"):
